@@ -155,6 +155,16 @@ class C04(F.PropCheck):
                 end = d['t_end'] if d['t_end'] is not None else None
                 if end is None and tlast - t_ref >= 10000000:
                     v.append('connection %d: still open 10 s after the server refused the registration' % n)
+                # ... and the device stays stopped: no new Wi-Fi/TCP connect sequence until it restarts, except a delayed reconnect that a
+                # disconnect callback BEFORE the stop had armed (2 s one-shot, __stop does not cancel it)
+                if end is not None and d['closed_by'] == 'DISCONNECT' and t_ref <= end <= t_ref + 1000000:
+                    D = c['RECONNECT_DELAY_MS'] * 1000; J = max((evs[0][1][4:] if evs and evs[0][0] == 'CFG' else []) or [0])
+                    t_restart = min([ints[0] for (k, ints, _) in outs if k == 'RESTART'] or [tlast + 1])
+                    for (k, ints, _) in outs:
+                        if k in ('WIFISTART', 'CONNECT') and end < ints[0] < t_restart:
+                            if not any(k2 == 'DISCD' and i2[0] <= end and ints[0] <= i2[0] + D + J for (k2, i2, _) in outs):
+                                v.append('connection %d: the server refused the registration at %d us, the device stopped at %d us but started to connect again at %d us' % (n, t_ref, end, ints[0]))
+                            break
         return v
 
     # ---------------- generators
@@ -188,6 +198,10 @@ class C04(F.PropCheck):
             m, t = self.gen_msg(rng, rng.randrange(1, 1000)) if only is None else only(rng)
             b += m; tags.add('msg:' + t)
         k = rng.random()
+        if only is None and rng.random() < 0.04:
+            # one segment of exactly RECVBUFF_MAXSIZE (-1, +1) bytes into the empty receive buffer: whole ping results and the start of another
+            n = K()['RECVBUFF_MAX'] + rng.choice([0, 0, -1, 1]); pr = ping_result(9); tags.add('recv:fill')
+            return [('ADV', [1000000], b''), ('RECV', [], (pr * (n // len(pr) + 1))[:n])]
         if k < 0.12 and len(b) > 2:
             c = rng.randrange(1, len(b)); tags.add('recv:cut')          # first part only: the rest never arrives
             return [('RECV', [], b[:c])]
@@ -195,6 +209,14 @@ class C04(F.PropCheck):
             c = rng.randrange(1, len(b)); tags.add('recv:split')
             return [('RECV', [], b[:c]), ('ADV', [rng.choice([1000, 50000, 100000, 150000])], b''), ('RECV', [], b[c:])]
         return [('RECV', [], b)]
+    def fill_plan(self, rng, target):
+        """LOCAL api numbers whose frames (measured sizes, Gen ApiFrames) add up to target bytes; the nearest reachable sum below it otherwise"""
+        sizes = {r[0]: r[3] for r in K()['ApiFrames'] if r[0] < 9}
+        best = {0: []}
+        for t in range(1, target + 1):
+            opts = [a for a in sizes if t - sizes[a] in best]
+            if opts: a = rng.choice(opts); best[t] = best[t - sizes[a]] + [a]
+        t = max(x for x in best if x <= target); plan = best[t][:]; rng.shuffle(plan); return plan
     def adv(self, rng, lo=0):
         return ('ADV', [rng.choice([1000, 3000, 4999, 5000, 5001, 10000, 50000, 99000, 100000, 101000, 200000, 250000, 500000,
                                     1000000, 1500000, 2000000, 2100000, 3000000, 5000000]) + lo], b'')
@@ -245,6 +267,14 @@ class C04(F.PropCheck):
                     elif j < 0.65: emit([self.adv(rng)])
                     elif j < 0.85: emit(self.gen_recv(rng, tags, only=lambda r: r.choice([(ping_result(2), 'pingres'), (chstate_req(3), 'chstate'), (sat_result(r.choice([10, 20, 30]), 4), 'satres')])))
                     else: emit([('ADV', [rng.choice([5000000, 4000000, 3000000])], b'')])
+            elif k < 0.58:
+                # accepted with timeout 0 (no pings), the link stalls (INPROGRESS): frames are parked in the 500-byte send buffer; local calls whose
+                # frame sizes add up to exactly SEND_BUFFER_SIZE (or 1 less / more), one more frame, then the link recovers
+                tags.add('sess:sendbuf-fill'); evs.append(('RECV', [], reg_result(3, 0, 1))); evs.append(('ADV', [2000000], b''))
+                evs.append(('SENTMODE', [-5], b''))
+                for api in self.fill_plan(rng, K()['SEND_BUFFER_SZ'] + rng.choice([0, 0, 0, -1, 1])) + [rng.randrange(0, 9)]:
+                    evs.append(('LOCAL', [api, 0, 1], b'')); evs.append(('ADV', [200000], b''))
+                evs += [('SENTMODE', [0], b''), ('ADV', [300000], b''), ('LOCAL', [0, 0, 0], b''), ('ADV', [400000], b'')]
             elif k < 0.80:
                 emit([('RECV', [], reg_result(rng.choice(self.REFUSALS), 0, 1))]); tags.add('sess:refused')
                 emit([('ADV', [rng.choice([1000, 4000, 5000, 6000, 100000])], b'')])
